@@ -691,3 +691,78 @@ Proof.
   intros Hu Hm H. destruct (assoc (strip u) match_type_rules) as [tbl|] eqn:Ea; [|discriminate].
   destruct (enum_rejects_spec _ _ H) as (l & Hl & Hn). subst tbl. right. exists u, m, l. auto.
 Qed.
+
+(* ---------------------------------------------------------------- rows are independent *)
+(* What a row becomes does not depend on the rows around it: a sheet that is two sheets one
+   after the other compiles to the two results one after the other, and the error of a sheet
+   is the error of its FIRST offending row (nothing after that row is looked at). *)
+Section MapMApp.
+Context {E S T : Type} (f : S -> result E T).
+
+Lemma mapM_app a b : mapM f (a ++ b) =
+  match mapM f a with
+  | Err e => Err e
+  | Ok ya => match mapM f b with Err e => Err e | Ok yb => Ok (ya ++ yb) end
+  end.
+Proof.
+  induction a as [|x a IH]; cbn.
+  - destruct (mapM f b); reflexivity.
+  - destruct (f x) as [y|e]; [|reflexivity]. rewrite IH.
+    destruct (mapM f a) as [ya|e]; [|reflexivity]. destruct (mapM f b); reflexivity.
+Qed.
+
+Lemma mapM_app_ok a b ys : mapM f (a ++ b) = Ok ys <->
+  exists ya yb, mapM f a = Ok ya /\ mapM f b = Ok yb /\ ys = ya ++ yb.
+Proof.
+  rewrite mapM_app. destruct (mapM f a) as [ya|e].
+  - destruct (mapM f b) as [yb|e].
+    + split.
+      * intros H. inversion H. exists ya, yb. auto.
+      * intros (ya' & yb' & Ha & Hb & ->). inversion Ha. inversion Hb. reflexivity.
+    + split; [discriminate|]. intros (ya' & yb' & _ & Hb & _). discriminate.
+  - split; [discriminate|]. intros (ya' & yb' & Ha & _). discriminate.
+Qed.
+
+Lemma mapM_first_err a x b ya e :
+  mapM f a = Ok ya -> f x = Err e -> mapM f (a ++ x :: b) = Err e.
+Proof. intros Ha Hx. rewrite mapM_app, Ha. cbn. rewrite Hx. reflexivity. Qed.
+End MapMApp.
+
+Theorem campaign_rows_independent a b evs : parse_campaign (a ++ b) = Ok evs <->
+  exists ea eb, parse_campaign a = Ok ea /\ parse_campaign b = Ok eb /\ evs = ea ++ eb.
+Proof. unfold parse_campaign. apply mapM_app_ok. Qed.
+
+Theorem campaign_first_offending_row a r b ea e :
+  parse_campaign a = Ok ea -> event_of_row r = Err e -> parse_campaign (a ++ r :: b) = Err e.
+Proof. unfold parse_campaign. apply mapM_first_err. Qed.
+
+Theorem trigger_rows_independent a b ts : parse_triggers (a ++ b) = Ok ts <->
+  exists ta tb, parse_triggers a = Ok ta /\ parse_triggers b = Ok tb /\ ts = ta ++ tb.
+Proof. unfold parse_triggers. apply mapM_app_ok. Qed.
+
+Theorem trigger_first_offending_row a r b ta e :
+  parse_triggers a = Ok ta -> trigger_of_row r = Err e -> parse_triggers (a ++ r :: b) = Err e.
+Proof. unfold parse_triggers. apply mapM_first_err. Qed.
+
+(* the same for whole sheets of raw cells (validation of every row, then the events) *)
+Theorem campaign_sheet_rows_independent a b evs : parse_campaign_sheet (a ++ b) = Ok evs <->
+  exists ea eb, parse_campaign_sheet a = Ok ea /\ parse_campaign_sheet b = Ok eb /\ evs = ea ++ eb.
+Proof.
+  unfold parse_campaign_sheet, bind. rewrite mapM_app.
+  destruct (mapM validate_camp_row a) as [ra|e].
+  - destruct (mapM validate_camp_row b) as [rb|e].
+    + apply campaign_rows_independent.
+    + split; [discriminate|]. intros (ea & eb & _ & Hb & _). discriminate.
+  - split; [discriminate|]. intros (ea & eb & Ha & _). discriminate.
+Qed.
+
+Theorem trigger_sheet_rows_independent a b ts : parse_trigger_sheet (a ++ b) = Ok ts <->
+  exists ta tb, parse_trigger_sheet a = Ok ta /\ parse_trigger_sheet b = Ok tb /\ ts = ta ++ tb.
+Proof.
+  unfold parse_trigger_sheet, bind. rewrite mapM_app.
+  destruct (mapM validate_trig_row a) as [ra|e].
+  - destruct (mapM validate_trig_row b) as [rb|e].
+    + apply trigger_rows_independent.
+    + split; [discriminate|]. intros (ea & eb & _ & Hb & _). discriminate.
+  - split; [discriminate|]. intros (ea & eb & Ha & _). discriminate.
+Qed.
